@@ -298,6 +298,12 @@ def run(ck, prog, ctx):
         for pos, s in tn.stmts():
             if s.k == "assign" and s.rv["k"] == "agg" and s.rv.get("adt", "").endswith("ParsedGene"):
                 m = {f: params_of(pv.of_operand(tn, o), tn.id) for f, o in zip(s.rv["fields"], s.rv["ops"])}
+                want_m = {"ncbi_id": {1}, "symbol": {2}, "hpo": {3}}
+                if all(v == want_m.get(k) or not v for k, v in m.items()) and any(not v for v in m.values()):
+                    # a field whose value comes out of a parser that the provenance does not see through (a shared digit loop, a fold): no parameter
+                    # reaches it visibly - which parameter it was is not decided; a field that visibly derives from the WRONG parameter stays a violation
+                    ck.undecided("ROLE", "ParsedGene/fields", "ParsedGene::try_new: the fields %s derive from no parameter that is visible through their conversion; the others are right" % sorted(k for k, v in m.items() if not v), where=tn.where(s.line))
+                    continue
                 ck.ob("ROLE", "ParsedGene/fields", m == {"ncbi_id": {1}, "symbol": {2}, "hpo": {3}}, "ParsedGene::try_new stores %s" % {k: sorted(v) for k, v in m.items()}, where=tn.where(s.line))
     gp = prog.body(G + "parse")
     if gp is not None:
